@@ -20,6 +20,9 @@ CHECKS = {
     "C04": ("model_checking", MC + "; in every state a menu of must-be-rejected messages is enumerated per member (fault/mutation enumeration on forks)",
             "In every state of a history traversal and for every member, every region of every deliverable genuine message is mutated once per kind (bit flips, truncations), plus semantically unacceptable authentic messages and failing builds; each on a fork: the complete canonical state (hook H1) must be identical after the error, the genuine message must then lead to the twin's state, and the next send must be accepted.",
             "Trusted: explorer, hook verif_state normal forms (DESIGN 1.4a), reference framing parser. Depth one less than C01. Known findings F-C04-1/2 (ratchet key consumed by rejected private messages) are listed in known-findings.json.", "DESIGN.md 2/C04"),
+    "C06": ("fault_enumeration", "exhaustive enumeration of (history, write positions, crash/reload point, retention, store) cases, each executed from scratch on the real implementation over a tee of the shipped in-memory store, the shipped SQLite store and a reference store model",
+            "Every history of the target member up to the depth bound x every set of write positions x every reload point x retention x shipped store: load-after-write equals the saved member (complete state), a crash after any unwritten tail loads exactly the last written state, a reloaded copy stays in lockstep with the never-reloaded member, and all reads agree between in-memory store, SQLite store and model.",
+            "Trusted: explorer, hook verif_state, reference store model. Crash points lie between storage trait calls; SQLite on an in-memory connection.", "DESIGN.md 2/C06"),
     "C07": ("model_checking", MC,
             "On the same traversal every Welcome/external joiner is ledger-compared with the members, its key package deletion is checked around its first write, and its first commit must be accepted; plus an enumerated mismatch matrix of Welcomes/trees/GroupInfos that must not produce a group.",
             "Trusted: explorer, harness stores. Same bounds as C01.", "DESIGN.md 2/C07"),
